@@ -235,6 +235,14 @@ def run(ck):
               "body routine advances by what was appended before the routine asks for more, and is cleared only when the body is done -- "
               "otherwise a message longer than one read never round-trips", min_instances=5)
 
+    # ---------------- facts shared with C04 ----------------
+    # both ends keep one parser per connection: the second message of a keep-alive connection arrives unchanged only if nothing the
+    # parser learned from the first one is left in it
+    ck.borrow("C04", ["C04-R2"], "C02-R7",
+              "a message that follows another one on the same connection is parsed from a clean parser: every field the parser, its steps "
+              "and its message write while receiving is re-initialised by reset() (a framing decision, a counter or a header left over "
+              "from the previous message makes the next one arrive with a different body or not at all)", min_instances=12)
+
     # ---------------- facts shared with C05 ----------------
     # a response written through a stream object that is moved (into a lambda, a smart pointer, another variable) must still arrive whole
     ck.borrow("C05", ["C05-R4"], "C02-R6",
